@@ -233,10 +233,21 @@ Fixpoint ins_key (k : string) (v : jv) (m : list (string * jv)) : list (string *
   | (k', v') :: r => if String.eqb k k' then (k, v) :: r
                      else if String.ltb k k' then (k, v) :: (k', v') :: r else (k', v') :: ins_key k v r
   end.
-Definition set_data (c : element) (k : string) (v : jv) : element :=
-  {| e_gid := e_gid c; e_label := e_label c; e_from := e_from c; e_to := e_to c; e_data := ins_key k v (e_data c) |}.
-Definition unwind_key (f : string) : option string := match json_path f with ["data"; k] => Some k | _ => None end.
-Definition unwind_set (t : trav) (c : element) (key : option string) (v : jv) : trav :=
+(* safeSet below "data": the last component is set in the map the components before it lead to; where they do not lead to
+   a map nothing is set *)
+Fixpoint set_in (path : list string) (v : jv) (m : list (string * jv)) : list (string * jv) :=
+  match path with
+  | [] => m
+  | [k] => ins_key k v m
+  | k :: r => match map_get m k with
+              | Some (JMap m') => ins_key k (JMap (set_in r v m')) m
+              | _ => m
+              end
+  end.
+Definition set_data (c : element) (ks : list string) (v : jv) : element :=
+  {| e_gid := e_gid c; e_label := e_label c; e_from := e_from c; e_to := e_to c; e_data := set_in ks v (e_data c) |}.
+Definition unwind_key (f : string) : option (list string) := match json_path f with "data" :: k :: r => Some (k :: r) | _ => None end.
+Definition unwind_set (t : trav) (c : element) (key : option (list string)) (v : jv) : trav :=
   add_current t (Some (match key with Some k => set_data c k v | None => c end)).
 Definition unwind_of (f : string) (t : trav) : list trav :=
   match t_cur t with
